@@ -4,8 +4,8 @@ package sim
 
 import (
 	"fmt"
-	"sort"
 	"net"
+	"sort"
 	"sync"
 	"time"
 
@@ -29,12 +29,12 @@ func (d Dir) String() string {
 
 // Fault describes one network fault. A fault applies to the datagram selected by Sel.
 type Fault struct {
-	Dir  string `json:"dir"`            // "c2s" | "s2c"
-	Nth  int    `json:"nth"`            // 0-based ordinal among the datagrams of Dir that match Class
+	Dir  string `json:"dir"`             // "c2s" | "s2c"
+	Nth  int    `json:"nth"`             // 0-based ordinal among the datagrams of Dir that match Class
 	Cls  string `json:"class,omitempty"` // "" (any) | "initial" | "handshake" | "0rtt" | "1rtt" | "retry" | "vn" | "long" or "frame:<NAME>" (needs observer)
-	Kind string `json:"kind"`           // drop | dup | delay | flip | trunc
-	Arg  int    `json:"arg,omitempty"`  // dup: copies; delay: extra ms; flip: byte index (mod len); trunc: new length (mod len)
-	Arg2 int    `json:"arg2,omitempty"` // flip: bit mask (0 => 0x01)
+	Kind string `json:"kind"`            // drop | dup | delay | flip | trunc
+	Arg  int    `json:"arg,omitempty"`   // dup: copies; delay: extra ms; flip: byte index (mod len); trunc: new length (mod len)
+	Arg2 int    `json:"arg2,omitempty"`  // flip: bit mask (0 => 0x01)
 }
 
 // Loss is a Bernoulli loss window.
@@ -47,18 +47,18 @@ type Loss struct {
 
 // Record is one datagram as seen by the router.
 type Record struct {
-	Seq    int           `json:"seq"`
-	Dir    string        `json:"dir"`
-	T      time.Duration `json:"t_ns"` // virtual time since the world started
-	Len    int           `json:"len"`
-	Class  []string      `json:"class,omitempty"` // packet classes found in the datagram (observer / first-byte sniffing)
-	Fate   string        `json:"fate"`            // delivered | dropped | dup:n | delayed:ms | flipped | truncated | injected | blackout | lost
-	Notes  string        `json:"notes,omitempty"`
-	Data   []byte        `json:"-"`
-	Pkts   any           `json:"pkts,omitempty"` // decoded packets (observer)
-	Forged bool          `json:"forged,omitempty"`
-	Dlv    []time.Duration `json:"dlv_ns,omitempty"` // virtual times at which (copies of) the datagram were handed to the receiver
-	Mutated bool         `json:"mutated,omitempty"` // content was altered (flip / truncate)
+	Seq     int             `json:"seq"`
+	Dir     string          `json:"dir"`
+	T       time.Duration   `json:"t_ns"` // virtual time since the world started
+	Len     int             `json:"len"`
+	Class   []string        `json:"class,omitempty"` // packet classes found in the datagram (observer / first-byte sniffing)
+	Fate    string          `json:"fate"`            // delivered | dropped | dup:n | delayed:ms | flipped | truncated | injected | blackout | lost
+	Notes   string          `json:"notes,omitempty"`
+	Data    []byte          `json:"-"`
+	Pkts    any             `json:"pkts,omitempty"` // decoded packets (observer)
+	Forged  bool            `json:"forged,omitempty"`
+	Dlv     []time.Duration `json:"dlv_ns,omitempty"`  // virtual times at which (copies of) the datagram were handed to the receiver
+	Mutated bool            `json:"mutated,omitempty"` // content was altered (flip / truncate)
 }
 
 // Classifier inspects a datagram before the fault decision and returns its classes
@@ -78,6 +78,7 @@ type Router struct {
 	loss      *Loss
 	lossState uint64
 	blackouts [][2]time.Duration
+	epoch     time.Duration  // virtual time the loss window and the blackouts are relative to (ArmAll)
 	counts    map[string]int // per dir+class ordinals
 	Log       []*Record
 	Classify  Classifier
@@ -194,15 +195,16 @@ func (r *Router) SendPacket(p simnet.Packet) error {
 		ords[k] = r.counts[ck]
 		r.counts[ck]++
 	}
-	// blackout / loss window
+	// blackout / loss window (times count from the epoch: the creation of the router or the last ArmAll)
+	rel := now - r.epoch
 	for _, b := range r.blackouts {
-		if now >= b[0] && now < b[1] {
+		if rel >= b[0] && rel < b[1] {
 			rec.Fate = "blackout"
 			r.mu.Unlock()
 			return nil
 		}
 	}
-	if r.loss != nil && now >= time.Duration(r.loss.FromMs)*time.Millisecond && now < time.Duration(r.loss.ToMs)*time.Millisecond {
+	if r.loss != nil && rel >= time.Duration(r.loss.FromMs)*time.Millisecond && rel < time.Duration(r.loss.ToMs)*time.Millisecond {
 		if int(splitmix(&r.lossState)%1000) < r.loss.Permille {
 			rec.Fate = "lost"
 			r.Applied = append(r.Applied, dir.String()+"/"+first(rec.Class)+"/lost")
@@ -352,6 +354,9 @@ func (r *Router) AppliedFaults() []string {
 func (r *Router) Silence(dirToE string, from, to time.Duration) (intactToE, lostAny, sentAny int) {
 	r.mu.Lock()
 	defer r.mu.Unlock()
+	if from < r.epoch {
+		from = r.epoch // a preparatory phase (before ArmAll) is not part of the judged connection
+	}
 	for _, x := range r.Log {
 		if x.Forged {
 			continue
@@ -374,7 +379,7 @@ func (r *Router) Silence(dirToE string, from, to time.Duration) (intactToE, lost
 
 // DeadStretch returns the longest period, up to 'until', between two consecutive intact deliveries in one
 // direction during which the network lost or corrupted at least one datagram of that direction (maximum over
-// both directions). It measures for how long the path was effectively dead.
+// both directions). It measures for how long the path was effectively dead. After ArmAll only the new phase counts.
 func (r *Router) DeadStretch(until time.Duration) time.Duration {
 	r.mu.Lock()
 	defer r.mu.Unlock()
@@ -386,7 +391,7 @@ func (r *Router) DeadStretch(until time.Duration) time.Duration {
 		}
 		var evs []ev
 		for _, x := range r.Log {
-			if x.Forged || x.Dir != dir {
+			if x.Forged || x.Dir != dir || x.T < r.epoch {
 				continue
 			}
 			if x.Mutated || len(x.Dlv) == 0 {
@@ -398,7 +403,7 @@ func (r *Router) DeadStretch(until time.Duration) time.Duration {
 			}
 		}
 		sort.Slice(evs, func(i, j int) bool { return evs[i].t < evs[j].t })
-		last, hasLoss := time.Duration(0), false
+		last, hasLoss := r.epoch, false // the pause after a preparatory phase (ArmAll) is not a dead path
 		for _, e := range evs {
 			if e.t > until {
 				break
@@ -428,6 +433,24 @@ func (r *Router) Arm(faults []Fault) {
 	r.counts = map[string]int{}
 	r.Applied = nil
 	r.mu.Unlock()
+}
+
+// ArmAll is Arm for the whole fault model: explicit faults (ordinals restart at 0), the Bernoulli loss window and the
+// blackouts, whose times count from now on. It returns the length of the log (the first record of the new phase).
+func (r *Router) ArmAll(faults []Fault, loss *Loss, blackouts [][2]time.Duration) int {
+	r.mu.Lock()
+	defer r.mu.Unlock()
+	r.faults = faults
+	r.used = make([]bool, len(faults))
+	r.counts = map[string]int{}
+	r.Applied = nil
+	r.loss, r.lossState = loss, 0
+	if loss != nil {
+		r.lossState = loss.Seed | 1
+	}
+	r.blackouts = blackouts
+	r.epoch = time.Since(r.start)
+	return len(r.Log)
 }
 
 // Mark returns the current length of the log (to separate phases of a scenario).
